@@ -94,7 +94,23 @@ def gen_placement(tier):
                     yield {"k": "place", "f": forest_to_json(forest), "sub": list(sub), "bits": list(bits)}
 
 
-SPACE = GenSpace({"table": gen_table, "names": gen_saveto_names, "place": gen_placement}, chunk=300)
+EXTRA_TYPES = ["trigger", "string", "int", "photo", "location", "select one c", "q string", "add select one prompt using c", "begin group", "begin repeat"]
+TYPE_NAMES = ["q", "entity", "label", "trees", "dataset"]  # names that also occur in the generated entity / meta block
+
+
+def gen_types(tier):
+    """save_to on one row of every question type (type catalogue + legacy spellings), the row named like generated nodes, the
+    entity's label referring to it or not: accepted exactly when the same form without save_to and entities sheet is"""
+    from xmc.ref import catalogue as cat
+
+    for label in [*cat.TYPE_ROWS, *EXTRA_TYPES]:
+        for nm in TYPE_NAMES:
+            for ref in (False, True):
+                for ctx in ("top", "group"):
+                    yield {"k": "types", "t": label, "name": nm, "ref": ref, "ctx": ctx}
+
+
+SPACE = GenSpace({"types": gen_types, "table": gen_table, "names": gen_saveto_names, "place": gen_placement}, chunk=300)
 blocks = SPACE.blocks
 expand = SPACE.expand
 
@@ -284,7 +300,73 @@ def check_entity(obs, xform, bits, expr, ds, viol):
         viol.append((f"entity-id-setvalue-unexpected:{''.join(map(str, bits))}", str([dict(s.attrib) for s in svs])))
 
 
+def check_types(case):
+    import copy
+
+    from xmc.ref import catalogue as cat
+
+    label, nm = case["t"], case["name"]
+    if label in cat.TYPE_ROWS:
+        wb = cat.form_for(label, case["ctx"])
+    else:
+        row = {"type": label, "name": "q", "label": "Q"}
+        rows = [row, {"type": "text", "name": "i", "label": "I"}, {"type": label.replace("begin", "end")}] if label.startswith("begin") else [row]
+        if case["ctx"] == "group":
+            rows = [{"type": "begin group", "name": "w", "label": "W"}, *rows, {"type": "end group"}]
+        wb = {"survey": rows, "choices": [dict(c) for c in cat.CHOICES]}
+    rows = wb["survey"]
+    row = next(r for r in rows if r.get("name") in ("q", "audit"))
+    container = row["type"].startswith("begin")
+    if row["name"] == "q":
+        row["name"] = nm
+    else:
+        nm = row["name"]
+    plain = run_convert(copy.deepcopy(wb))
+    ntr = len(rows) + 1
+    if plain.kind != "ok":
+        return {"outcome": "types-base-refused", "nt": False, "viol": [], "tr": ntr}
+    path = next((p_ for p_ in O.Obs(plain.xform).paths if p_.rsplit("/", 1)[-1] == nm and "/meta/entity" not in p_), None)
+    has_bind = path is not None and any(b.get("nodeset") == path for b in O.Obs(plain.xform).model.findall(O.X + "bind"))
+    wb["entities"] = [{"dataset": "trees", "label": ("concat('x', ${%s})" % nm) if case["ref"] else "'l'"}]
+    if case["ref"] and (path is None or container):
+        return {"outcome": "types-no-node-to-refer-to", "nt": False, "viol": [], "tr": ntr}
+    base_ent = run_convert(copy.deepcopy(wb))
+    row["save_to"] = "p"
+    out = run_convert(wb)
+    if out.kind == "crash":
+        return {"outcome": "crash", "nt": True, "viol": [(f"internal-exception:{out.exc}:{out.where}", f"{out.msg} case={case}")], "tr": ntr}
+    viol = []
+    if container:
+        if out.kind != "reject":
+            viol.append(("invalid-entity-form-accepted:types:save_to-on-a-section", str(case)))
+        return {"outcome": "reject-expected", "nt": not viol, "viol": viol, "tr": ntr}
+    if base_ent.kind != "ok":
+        viol.append((f"valid-entity-form-rejected:types:entity-next-to-{'a-row-named-' + nm if nm != 'q' else 'type-' + label}", f"{base_ent.msg[:200]} case={case}"))
+        return {"outcome": "reject", "nt": True, "viol": viol, "tr": ntr}
+    if out.kind == "reject":
+        if path is not None:
+            viol.append(("valid-entity-form-rejected:types:save_to", f"{out.msg[:200]} case={case}"))
+        return {"outcome": "reject", "nt": True, "viol": viol, "tr": ntr}
+    obs = O.Obs(out.xform)
+    if case["ref"]:
+        lb = [b.get("calculate") for b in obs.model.findall(O.X + "bind") if b.get("nodeset") == "/data/meta/entity/label"]
+        if len(lb) != 1 or "".join(lb[0].split()) != "concat('x',%s)" % path:
+            viol.append(("entity-label-reference:types", f"{lb!r} for concat('x', ${{{nm}}}) with {nm} at {path}"))
+    else:
+        check_entity(obs, out.xform, [0, 0, 0, 1], "'l'", "trees", viol)
+    if path is not None and not any(b.get("nodeset") == path for b in obs.model.findall(O.X + "bind")):
+        viol.append(("saveto-lost:types", f"no bind for {path}"))
+    for b in obs.model.findall(O.X + "bind"):
+        got = b.get(ENT + "saveto")
+        want = "p" if b.get("nodeset") == path else None
+        if got != want and path is not None:
+            viol.append(("saveto-on-wrong-bind", f"{b.get('nodeset')}: got {got!r} want {want!r}"))
+    return {"outcome": "ok", "nt": not viol, "viol": viol[:3], "tr": ntr}
+
+
 def check_one(case):
+    if case["k"] == "types":
+        return check_types(case)
     wb, nodes = build(case)
     out = run_convert(wb)
     ntr = len(wb["survey"]) + len(wb.get("entities", ()))
